@@ -1,4 +1,5 @@
 import SaModel.Build.Finish
+import SaModel.Lemmas.C18Assembled
 /-
 C18 — every conversion error names the field that caused it (serializer side).
 Errors carry annotations exactly as `ContextSupport::ctx` builds them: a context annotates only an error that
@@ -97,5 +98,70 @@ theorem leaf_error_names_leaf (ext : Ext) (p : String) (k : LeafKind) (v : Valid
   rw [push]
   simp only [pushScalar, h, bind, Except.bind]
   simp [ctx, B.ann]
+
+/-! ## path assembly (builder half)
+
+`segsDT dt md` (Lemmas/C18Paths.lean) lists the positions of a schema as lists of child names, with the Rust
+conventions (struct child: raw name; list / map / union children through `ChildName`, i.e. `<empty>` for the empty
+name; map children below the entries name; dictionary `key` / `value`), `render root segs` joins them with `.`
+below `root`, `positions b` reads the (path, label) pairs off a builder tree. -/
+
+/-- **paths_assembled.** For every schema, every builder of the tree `build_builder` creates at `path` stores
+`path` followed by the `.`-joined child names that lead to it, and is of the family (label) the data type there
+asks for — all positions of the schema, in schema order, nothing else.  By recursion over the schema. -/
+theorem paths_assembled (dt : DataType) (path : String) (nullable : Bool) (md : Metadata) (b : B)
+    (h : newDT path dt nullable md = .ok b) :
+    positions b = (segsDT dt md).map fun q => (render path q.1, q.2) :=
+  newDT_positions dt path nullable md b h
+
+/-- the root builder of `OuterSequenceBuilder::new`: the paths are `$`-rooted -/
+theorem paths_assembled_root (fields : List Field) (root : B) (h : newRoot fields = .ok root) :
+    positions root = (segsDT (.struct (Fields.ofList fields)) []).map fun q => (render "$" q.1, q.2) :=
+  newRoot_positions h
+
+/-- in particular the builder itself sits at `path` … -/
+theorem newDT_path (dt : DataType) (path : String) (nullable : Bool) (md : Metadata) (b : B)
+    (h : newDT path dt nullable md = .ok b) : b.path = path := by
+  have hp := paths_assembled dt path nullable md b h
+  obtain ⟨rest, hr⟩ := positions_head b
+  rw [hr] at hp
+  have hs : ∃ l r, segsDT dt md = ([], l) :: r := by
+    cases dt <;> first
+      | exact ⟨_, _, by simp only [segsDT]; rfl⟩
+      | (rename_i e s; obtain ⟨en, edt, enl, emd⟩ := e
+         cases edt <;> first
+          | exact ⟨_, _, by simp only [segsDT]; rfl⟩
+          | (rename_i fs; cases fs with
+             | nil => exact ⟨_, _, by simp only [segsDT]; rfl⟩
+             | cons kf r => cases r with
+               | nil => exact ⟨_, _, by simp only [segsDT]; rfl⟩
+               | cons vf r2 => exact ⟨_, _, by simp only [segsDT]; rfl⟩))
+  obtain ⟨l, r, hs⟩ := hs
+  rw [hs] at hp
+  simp only [List.map_cons, render_nil, List.cons.injEq, Prod.mk.injEq] at hp
+  exact hp.1.1
+
+/-- … and every builder below it sits at `path` extended by child names of the schema: never at a sibling of
+`path`, never outside -/
+theorem positions_below (dt : DataType) (path : String) (nullable : Bool) (md : Metadata) (b : B)
+    (h : newDT path dt nullable md = .ok b) (q : Pos) (hq : q ∈ positions b) :
+    ∃ segs, (segs, q.2) ∈ segsDT dt md ∧ q.1 = render path segs := by
+  rw [paths_assembled dt path nullable md b h, List.mem_map] at hq
+  obtain ⟨s, hs, rfl⟩ := hq
+  exact ⟨s.1, hs, rfl⟩
+
+/-- non-vacuity: `{orders: List<element: Struct{price: Int32, "": Utf8}>, m: Map<entries: {key: Utf8, value: Dictionary<Int8, Utf8>}>}`.
+The empty struct child name is shown raw (`$.orders.element.`), as `build_struct` does. -/
+example :
+    (do let root ← newRoot [
+          .mk "orders" (.list (.mk "element" (.struct (.cons (.mk "price" .int32 false [])
+            (.cons (.mk "" .utf8 true []) .nil))) false [])) false [],
+          .mk "m" (.map (.mk "" (.struct (.cons (.mk "key" .utf8 false [])
+            (.cons (.mk "value" (.dictionary .int8 .utf8) true []) .nil))) false []) false) false []]
+        pure (positions root)) =
+      .ok [("$", "Struct(..)"), ("$.orders", "List"), ("$.orders.element", "Struct(..)"),
+        ("$.orders.element.price", "Int32"), ("$.orders.element.", "Utf8"),
+        ("$.m", "Map(..)"), ("$.m.<empty>.key", "Utf8"), ("$.m.<empty>.value", "Dictionary(..)"),
+        ("$.m.<empty>.value.key", "Int8"), ("$.m.<empty>.value.value", "Utf8")] := by decide
 
 end SaModel.Props.C18
